@@ -279,11 +279,11 @@ func (e *Enc) binop(x *ssa.BinOp) {
 	case token.QUO, token.REM:
 		e.safety("divzero", tNot(tEq(b, tInt(0))), x.Pos())
 		if isUnsigned(t) {
-			op := "div"
 			if x.Op == token.REM {
-				op = "mod"
+				e.setVal(x, e.modTerm(a, b))
+			} else {
+				e.setVal(x, e.divTerm(a, b))
 			}
-			e.setVal(x, Term{app(op, a.S, b.S), sInt})
 			return
 		}
 		// Go truncated division on signed integers
@@ -422,10 +422,19 @@ func (e *Enc) backEdges(b *ssa.BasicBlock, st *State) {
 			}
 		}
 		c := e.loopCtx(li, st, over, nil)
+		e.terminal = true
+		defer func() { e.terminal = false }()
 		iterVars := e.iterBinder(li)
 		c.local = wrapLocal(c.local, iterVars)
 		for k, inv := range li.lc.Inv {
-			e.obligeG(g, "inv-step", fmt.Sprintf("loop%d#%d %s", li.ord, k+1, inv.Text), inv.Tags, c.evalBool(inv.E), token.NoPos)
+			cj := e.p.conjuncts(inv.E, deepSplit)
+			for j, cx := range cj {
+				label := fmt.Sprintf("loop%d#%d %s", li.ord, k+1, inv.Text)
+				if len(cj) > 1 {
+					label = fmt.Sprintf("loop%d#%d.%d %s", li.ord, k+1, j+1, exprString(cx))
+				}
+				e.obligeG(g, "inv-step", label, inv.Tags, c.evalBool(cx), token.NoPos)
+			}
 		}
 		for k, be := range li.lc.Back {
 			e.obligeG(g, "backedge", fmt.Sprintf("loop%d#%d %s", li.ord, k+1, be.Text), be.Tags, e.evalIter(li, c, be.E), token.NoPos)
@@ -488,6 +497,8 @@ func (e *Enc) substIter(x Expr, hc *Ctx) Expr {
 		return &ELet{Name: x.Name, Val: e.substIter(x.Val, hc), Body: e.substIter(x.Body, hc)}
 	case *EUpd:
 		return &EUpd{X: e.substIter(x.X, hc), F: x.F, V: e.substIter(x.V, hc)}
+	case *EStore:
+		return &EStore{X: e.substIter(x.X, hc), I: e.substIter(x.I, hc), V: e.substIter(x.V, hc)}
 	}
 	return x
 }
@@ -519,8 +530,17 @@ func (e *Enc) ret(x *ssa.Return, st *State) {
 		}
 	}
 	c := e.ctx(st, e.init, extra)
+	e.terminal = true
+	defer func() { e.terminal = false }()
 	for k, en := range e.fc.Ens {
-		e.oblige("post", fmt.Sprintf("#%d %s", k+1, en.Text), en.Tags, c.evalBool(en.E), x.Pos())
+		cj := e.p.conjuncts(en.E, deepSplit)
+		for j, cx := range cj {
+			label := fmt.Sprintf("#%d %s", k+1, en.Text)
+			if len(cj) > 1 {
+				label = fmt.Sprintf("#%d.%d %s", k+1, j+1, exprString(cx))
+			}
+			e.oblige("post", label, en.Tags, c.evalBool(cx), x.Pos())
+		}
 	}
 	_ = strings.TrimSpace
 }
